@@ -425,6 +425,15 @@ def build_c05(g, cases, arcs, quick, rnd):
         for k in range(3 if quick else 14):
             lat1, lon1 = rnd.uniform(-75, 75), rnd.uniform(-180, 180)
             gap, brg = math.radians(rnd.uniform(2.05, 2.95)), math.radians(rnd.uniform(0, 360))
+            if k == 0:
+                # the pair closest to the limit of the quantifier (178 deg apart: the slowest convergence inside it), displaced
+                # diagonally so that both |lat1 + lat2| and the longitude distance from the antipode stay below 2 degrees
+                lat1 = max(-40.0, min(40.0, lat1))
+                gap, brg = math.radians(2.06), math.radians(45.0 + 90.0 * (int(abs(lon1)) % 4))
+            elif k == 1:
+                # the far corner of that 2 x 2 degree box: 2.75 degrees from the antipode, still 177.25 degrees apart
+                lat1 = max(-10.0, min(10.0, lat1))
+                gap, brg = math.radians(2.75), math.radians(45.0 + 90.0 * (int(abs(lon1)) % 4))
             p0 = math.radians(-lat1)                                     # the antipode, displaced by `gap` towards `brg` on the sphere
             p2 = math.asin(math.sin(p0) * math.cos(gap) + math.cos(p0) * math.sin(gap) * math.cos(brg))
             l2 = math.radians(lon1 + 180.0) + math.atan2(math.sin(brg) * math.sin(gap) * math.cos(p0), math.cos(gap) - math.sin(p0) * math.sin(p2))
